@@ -44,7 +44,7 @@ Fixpoint per_step (at_ : Z) (i : nat) (l : list hstep) : list (nat * nat) :=
       (match (if is_action_step s then C10_diag s else O) with O => [] | d => [(3%nat, (i * 10 + d)%nat)] end) ++
       (match (if is_action_step s then C13_diag s else O) with O => [] | d => [(4%nat, (i * 10 + d)%nat)] end) ++
       (if negb (is_action_step s) || stats_step_ok s then [] else [(2%nat, (5000 + i)%nat)]) ++
-      (if entries_stable s then [] else [(9%nat, i)]) ++
+      (if st_panic s then [(3%nat, (i * 10 + 8)%nat); (9%nat, i)] else if entries_stable s then [] else [(9%nat, i)]) ++
       (match C15_diag at_ s with O => [] | d => [(6%nat, (i * 10 + d)%nat)] end) ++
       (match C11_diag s with O => [] | d => [(7%nat, (i * 10 + d)%nat)] end) ++
       per_step at_ (S i) t
@@ -84,9 +84,9 @@ Definition mkh (st : tstatus) (gc : Z) (gid : nat) (ev : hev) (r : rnd) (cur rz 
 Definition mkcall (p : nat) (a : act) (chips : Z) (w : why) (f : bool) : hcall :=
   {| hc_player := p; hc_action := a; hc_chips := chips; hc_why := w; hc_fail := f |}.
 Definition mkstep (c : hcall) (pre : hsnap) (ok : bool) (post quiet : hsnap) (acts : list hlast) (errs : nat) (be : list (nat * bool))
-  (n0 n1 n2 : Z) (seen : list (hev * Z)) (closed wedged : bool) (ss : list hstat) (ret : Z) (rn hn : nat) (xi : bool) : hstep :=
+  (n0 n1 n2 : Z) (seen : list (hev * Z)) (closed wedged : bool) (ss : list hstat) (ret : Z) (rn hn : nat) (xi pn : bool) : hstep :=
   {| st_call := c; st_pre := pre; st_ok := ok; st_post := post; st_quiet := quiet; st_acts := acts; st_errs := errs; st_be := be;
      st_now0 := n0; st_now1 := n1; st_now2 := n2; st_seen := seen; st_closed := closed; st_wedged := wedged; st_settle_stats := ss;
-     st_ret := ret; st_result_n := rn; st_hand_n := hn; st_ext_injected := xi |}.
+     st_ret := ret; st_result_n := rn; st_hand_n := hn; st_ext_injected := xi; st_panic := pn |}.
 Definition mkcase (at_ : Z) (steps : list hstep) (fin tw : list (nat * Z)) (ht : bool) : case :=
   {| c_action_time := at_; c_steps := steps; c_final := fin; c_twin_final := tw; c_has_twin := ht |}.
